@@ -24,7 +24,8 @@ MANIFEST = {
             'secret_range*2^k (and, where a range cap is stated, secret + all summands <= cap) is compiled as a Coq theorem over the stated grid (L in 1..64, l in {L,(L+1)/2,1}, k in {8,16,30,40}, '
             'all 2t<m<=9, PRSS on/off) and the row\'s bound arithmetic is compared with the bounds logged from the real protocols in the '
             'multi-party simulator. Second generated table: every output(V, threshold=..) whose V is a local product of sharings must be '
-            'rerandomised (zero sharing / reshare) on every path; exhaustive GF(11) counting theorems unrerandomised_product_leaks_refuted '
+            'rerandomised (zero sharing / reshare) on every path by a FRESH zero sharing (one generation masks one opening; '
+            'zero_sharing_reuse_leaks_refuted, GF(7)); exhaustive GF(11) counting theorems unrerandomised_product_leaks_refuted '
             '(views of two nonzero secrets overlap in 110 of 1210 tapes) and rerandomised_product_uniform justify the obligation; '
             'failing sites are replayed (m=3, t=1: party 0 reconstructs and factors the product polynomial).',
     'note': 'Per-opening bounds are proved; composition across a whole adaptive program is the union bound over openings, stated not '
@@ -325,6 +326,9 @@ PROD_SCEN = {
     'np_is_zero_public': dict(func='np_is_zero_public', typ=('fld', 2**61 - 1), secrets=(5, 11), np=True),
     'np_reciprocal': dict(func='np_reciprocal', typ=('fld', 2**61 - 1), secrets=(5, 11), np=True),
     '_np_is_zero': dict(func='_np_is_zero', typ=('int', 32), secrets=(5, 11), np=True),
+    # small fields with PRSS: both openings (r*s and a*r) get a pseudorandom zero sharing; used when a row is 'RReused'
+    'is_zero_public/small': dict(func='is_zero_public', typ=('fld', 1009), secrets=(5, 11), prss_only=True),
+    'np_is_zero_public/small': dict(func='np_is_zero_public', typ=('fld', 1009), secrets=(5, 11), np=True, prss_only=True),
 }
 
 
@@ -573,6 +577,40 @@ def analyse_product(scen, out):
             res['sample'] = {'secret': secret, 'own_share_of_a': own, 'points_seen_by_party0': pts, 'candidates_for_a': cands}
     res['leaks'] = res['runs'] > 0 and res['true_secret_among_candidates'] == res['runs'] and \
         res['other_secret_excluded'] >= 0.9 * res['runs']
+    return res
+
+
+def analyse_reuse(scen, out):
+    """Two openings masked by the same zero sharing: party 0 (X = 1) subtracts the shares of the two opened
+    polynomials, D = f_r (f_s - f_a); a root rho of D that is the root of f_r gives r = f_r(0) from its own share
+    of r, hence a = (a r) / r.  <= 2 candidates per run."""
+    p = out['p']
+    res = {'scenario': scen, 'p': p, 'runs': 0, 'true_secret_among_candidates': 0, 'max_candidates': 0, 'sample': None,
+           'outputs': sorted({str(r['output']) for r in out['runs']})}
+    for run in out['runs']:
+        ops = [o for o in run['opens'] if o['points'] and len(o['points']) == 3]
+        if len(ops) < 2 or 'r' not in ops[-1]['locals']:
+            continue
+        first = lambda v: v[0] if isinstance(v, list) else v   # noqa
+        rs_pts = {x: first(v) for x, v in ops[-2]['points']}
+        b_pts = [(x, first(v)) for x, v in ops[-1]['points']]
+        r_share = first(ops[-1]['locals']['r'])
+        c = _interp3(b_pts, p)[0]
+        d = _interp3([(x, (rs_pts[x] - y) % p) for x, y in b_pts], p)
+        cands = set()
+        if any(d):
+            for rho in range(p):
+                if (d[0] + d[1] * rho + d[2] * rho * rho) % p == 0 and rho != 1:
+                    r = r_share * (-rho) * pow(1 - rho, -1, p) % p
+                    if r:
+                        cands.add(c * pow(r, -1, p) % p)
+        res['runs'] += 1
+        res['true_secret_among_candidates'] += (run['secret'] % p) in cands
+        res['max_candidates'] = max(res['max_candidates'], len(cands))
+        if res['sample'] is None:
+            res['sample'] = {'secret': run['secret'], 'own_share_of_r': r_share, 'opened_a_times_r': c, 'difference_polynomial': d,
+                             'candidates_for_a': sorted(cands)}
+    res['leaks'] = res['runs'] > 0 and 2 * res['true_secret_among_candidates'] >= res['runs']
     return res
 
 
@@ -831,38 +869,46 @@ def run(ctx):
             site, row['bound_src'], detail['first_failing_grid_point'], json.dumps(emp)[:300] if emp else None))
         ctx.violation(sig, detail, found_input=found or detail['first_failing_grid_point'] is not None)
 
-    # 6. product openings without rerandomisation: replay what ONE party (m = 3, t = 1) learns
+    # 6. product openings without (fresh) rerandomisation: replay what ONE party (m = 3, t = 1) learns
     by_func = {}
     for r in failing_prod:
-        by_func.setdefault(r['func'], []).append(r)
+        by_func.setdefault((r['func'], r['rerand'] == 'RReused'), []).append(r)
 
-    def prod_search(func):
-        scen = func if func in PROD_SCEN else None
-        if scen is None or (PROD_SCEN[scen].get('np') and not have_np):
-            return func, None
+    def prod_search(key):
+        func, reused = key
+        scen = (func + '/small') if reused else func
+        if scen not in PROD_SCEN or (PROD_SCEN[scen].get('np') and not have_np):
+            return key, None
         res = {}
         for no_prss in (False, True):
+            if no_prss and PROD_SCEN[scen].get('prss_only'):
+                continue
             out = spawn(dict(mode='product', scen=scen, no_prss=no_prss, K=None, seed=ctx.seed + 2,
-                             secrets=list(PROD_SCEN[scen]['secrets']), reps=ctx.n(4, 12)), python)
+                             secrets=list(PROD_SCEN[scen]['secrets']), reps=ctx.n(10, 20) if reused else ctx.n(4, 12)), python)
             if 'error' in out or not out.get('runs'):
                 res['noprss' if no_prss else 'prss'] = {'error': str(out)[:400]}
                 continue
-            res['noprss' if no_prss else 'prss'] = analyse_product(scen, out)
-        return func, res
+            res['noprss' if no_prss else 'prss'] = analyse_reuse(scen, out) if reused else analyse_product(scen, out)
+        return key, res
     if by_func:
         with ThreadPoolExecutor(max_workers=6) as ex:
             searched = dict(ex.map(prod_search, sorted(by_func)))
-        for func, rs in sorted(by_func.items()):
-            emp = searched.get(func)
+        for (func, reused), rs in sorted(by_func.items()):
+            emp = searched.get((func, reused))
             found = bool(emp) and any(isinstance(v, dict) and v.get('leaks') for v in emp.values())
             detail = {'function': func, 'sites': [{k: r[k] for k in ('site', 'line', 'opened', 'threshold', 'rerand', 'conditions')} for r in rs],
-                      'obligation': 'a local product of two degree-t sharings opened with threshold 2t must get a fresh zero sharing / '
-                                    'reshare on every path (Stat.unrerandomised_product_leaks_refuted / rerandomised_product_uniform)',
-                      'replay': 'm=3, t=1: party 0 interpolates the whole product polynomial from the 2 received shares + its own, '
-                                'factors it and derives <= 2 candidates for the secret from its own share of a', 'empirical': emp}
-            ctx.log('FAILING PRODUCT OPENING %s: %s; empirical %s' % (func, [(r['site'], r['rerand']) for r in rs], json.dumps(emp)[:700]))
-            ctx.case({'product_opening': func, 'sites': [r['site'] for r in rs]}, nontrivial=True, kind='product-opening')
-            ctx.violation('product-opened-without-rerandomisation site=%s' % func, detail, found_input=found)
+                      'obligation': 'a local product of two degree-t sharings opened with threshold 2t must get a FRESH zero sharing / '
+                                    'reshare on every path; one generated zero sharing may mask one opening only '
+                                    '(Stat.unrerandomised_product_leaks_refuted / zero_sharing_reuse_leaks_refuted / rerandomised_product_uniform)',
+                      'replay': ('m=3, t=1, small field, PRSS: party 0 subtracts the shares of the two openings masked by the same zero '
+                                 'sharing, takes the roots of the difference f_r (f_s - f_a) and derives <= 2 candidates for the secret')
+                      if reused else
+                                ('m=3, t=1: party 0 interpolates the whole product polynomial from the 2 received shares + its own, '
+                                 'factors it and derives <= 2 candidates for the secret from its own share of a'), 'empirical': emp}
+            what = 'zero-sharing-reused' if reused else 'product-opened-without-rerandomisation'
+            ctx.log('FAILING PRODUCT OPENING %s (%s): %s; empirical %s' % (func, what, [(r['site'], r['rerand']) for r in rs], json.dumps(emp)[:700]))
+            ctx.case({'product_opening': func, 'what': what, 'sites': [r['site'] for r in rs]}, nontrivial=True, kind='product-opening')
+            ctx.violation('%s site=%s' % (what, func), detail, found_input=found)
 
     if ctx.broken and not ctx.violations:
         ctx.unproved('C18 table/correspondence', {'broken': ctx.broken[:6]})
